@@ -403,6 +403,10 @@ func ruleC15Dispatch(c *Ctx) {
 
 // textOf: t is fmt.Sprintf("%v", [param]) (the decimal/%v text of the parameter).
 func textOf(t *Term, param string) bool {
+	// the decimal-text helper applied to the operand itself
+	if a, isText := callArgs(t, "text"); isText && len(a) == 1 {
+		return a[0].Op == "param" && a[0].Name == param
+	}
 	args, ok := callArgs(t, "fmt.Sprintf")
 	if !ok || len(args) != 2 {
 		return false
@@ -417,3 +421,69 @@ func textOf(t *Term, param string) bool {
 // "the comparison used by WHERE, ORDER BY, IN and joins": the consumers decide on compare.Compare's verdict
 // (operator table, membership oracle, BETWEEN, ORDER BY comparator with NULL only for the untyped nil)
 func init() { register("C15", ruleC01CmpTable, ruleC01Membership, ruleC01Between, ruleC05LessTable) }
+
+
+func init() { register("C15", ruleC15DecimalText); register("C01", ruleC15DecimalText) }
+
+// ruleC15DecimalText: what "the number's decimal text" is.
+func ruleC15DecimalText(c *Ctx) {
+	c.Doc("c15.decimal-text", "number against string: every textual comparison of package compare renders a numeric operand through the helper text(v), and text writes a float32/float64 with strconv.FormatFloat(v, 'f', -1, bits) (no exponent: 1000000, not 1e+06) and everything else with %v; no textual arm formats a possibly-float operand with %v directly — otherwise `v = '1000000'` matches an int column but not a float64 column holding the same number")
+	tf := c.P.Func(comparePath, "text")
+	var why []string
+	if tf == nil {
+		why = append(why, "package compare has no decimal-text helper: floats are rendered by %v, i.e. with an exponent from 1e6 up and below 1e-4")
+	} else {
+		c.Fn("compare.text")
+		paths, err := WalkFunc(tf, WalkCfg{MaxVisits: 1})
+		if err != nil {
+			why = append(why, err.Error())
+		}
+		floats := map[string]bool{}
+		for _, p := range paths {
+			if p.Exit != "return" || len(p.Ret) != 1 {
+				continue
+			}
+			kind := ""
+			for _, k := range p.Order {
+				kt := p.KeyTerm[k]
+				if kt != nil && kt.Op == "ext" && kt.Name == "1" && kt.Args[0].Op == "assertok" {
+					if v, _ := p.Assumed(k); v && kind == "" {
+						kind = kt.Args[0].Name
+					}
+				}
+			}
+			r := p.Ret[0].T
+			switch kind {
+			case "float32", "float64":
+				a, ok := callArgs(r, "strconv.FormatFloat")
+				if !ok || len(a) != 4 || a[1].Name != "102" || a[2].Name != "-1" {
+					why = append(why, "a "+kind+" is rendered by "+termStr(r)+", not by FormatFloat(v, 'f', -1, bits)")
+				}
+				floats[kind] = true
+			default:
+				if !textOf(r, tf.Params[0].Name()) {
+					why = append(why, "a non-float value is rendered by "+termStr(r))
+				}
+			}
+		}
+		if !floats["float32"] || !floats["float64"] {
+			why = append(why, "text has no arm for float32/float64")
+		}
+	}
+	// no direct %v of an operand inside the comparison functions
+	for _, f := range c.P.pkgFuncs(comparePath) {
+		if f == tf || f.Parent() != nil {
+			continue
+		}
+		allInstrs(f, func(_ *ssa.BasicBlock, in ssa.Instruction) {
+			call, ok := in.(*ssa.Call)
+			if !ok || calleeName(call.Common()) != "fmt.Sprintf" || len(call.Call.Args) != 2 {
+				return
+			}
+			if fs, isS := constString(call.Call.Args[0]); isS && fs == "%v" {
+				why = append(why, c.P.funcKey(f)+" formats an operand with %v at "+c.P.Pos(call.Pos())+" (a float64 from 1e6 up prints with an exponent): the textual comparison does not use the number's decimal text")
+			}
+		})
+	}
+	c.Check(len(why) == 0, "c15.decimal-text", "compare.text", "compare/compare.go", "floats through FormatFloat('f', -1); no direct %v of operands", strings.Join(uniq(why), "; "))
+}
